@@ -429,6 +429,26 @@ func genQueueProgram(rng *rand.Rand, family string, mutex bool) (ths []qthread, 
 		return op
 	}
 	switch family {
+	case "stale":
+		// three to five operations that all take their first snapshots (tail / head / first node) of the same queue state and then
+		// complete one after the other, each on a stale snapshot (the scheduler parks every thread after a few own steps)
+		nth := 3 + rng.Intn(3)
+		for t := 0; t < nth; t++ {
+			var ops []qop
+			for k := 1 + rng.Intn(2); k > 0; k-- {
+				kinds := []string{"offer", "offer", "offer", "offer", "poll", "poll", "peek", "isempty", "size", "iter"}
+				kd := kinds[rng.Intn(len(kinds))]
+				switch kd {
+				case "offer":
+					ops = append(ops, qop{kind: "offer", v: fresh()})
+				case "iter":
+					ops = append(ops, iterOp())
+				default:
+					ops = append(ops, qop{kind: kd})
+				}
+			}
+			ths = append(ths, qthread{ops: ops, phase: 1})
+		}
 	case "lag":
 		// a producer frozen inside Offer (between linking its node and swinging the tail) while consumers drain past the
 		// lagging tail; later producers must still complete (C07)
@@ -868,6 +888,8 @@ func runQueue(fs *flag.FlagSet, args []string) {
 			family = []string{"lin", "iter", "mix", "seq"}[rng.Intn(4)]
 			if *freeze && rng.Intn(3) == 0 {
 				family = "lag"
+			} else if !*freeze && rng.Intn(6) == 0 {
+				family = "stale"
 			}
 		}
 		if *impl == "mutex" {
@@ -936,6 +958,13 @@ func runQueue(fs *flag.FlagSet, args []string) {
 			for _, o := range ths[0].ops {
 				if o.kind == "poll" {
 					pre = 0
+				}
+			}
+		}
+		if family == "stale" {
+			for i, th := range ths {
+				if th.phase == 1 {
+					s.parkAt[i] = 1 + rng.Intn(6)
 				}
 			}
 		}
